@@ -322,4 +322,101 @@ example : ¬ AcctCond (zeros 108 ++ [1] ++ zeros 56 ++ [1, 7]) TOKEN_2022_ID := 
   · exact absurd h (by decide)
   · exact absurd h (by decide)
 
+/-! ### the trait-level checked getters -/
+
+def progOf (t22 : Bool) : Bytes := if t22 then TOKEN_2022_ID else TOKEN_ID
+
+theorem accountValid_len (t22 : Bool) (d : Bytes) (h : accountValidOf t22 d = .ok true) : 165 ≤ d.length := by
+  cases t22 with
+  | false =>
+    simp only [accountValidOf, Bool.false_eq_true, if_false, Res.ok.injEq] at h
+    have := tokenAccountValid_len h; omega
+  | true =>
+    simp only [accountValidOf, if_true] at h
+    rcases t22AccountValid_true h with h1 | h1 <;> omega
+
+theorem mintValid_len (t22 : Bool) (d : Bytes) (h : mintValidOf t22 d = .ok true) : 82 ≤ d.length := by
+  cases t22 with
+  | false =>
+    simp only [mintValidOf, Bool.false_eq_true, if_false, Res.ok.injEq] at h
+    have := tokenMintValid_len h; omega
+  | true =>
+    simp only [mintValidOf, if_true] at h
+    rcases t22MintValid_true h with h1 | h1 <;> omega
+
+theorem genericAccount_of (t22 : Bool) (d : Bytes) :
+    genericAccount d (progOf t22) = checkedGetter (accountValidOf t22 d) (unpackAccountFields d) := by
+  have hne : TOKEN_2022_ID ≠ TOKEN_ID := by decide
+  cases t22 with
+  | false =>
+    simp only [progOf, Bool.false_eq_true, if_false, genericAccount, if_true, accountValidOf, checkedGetter]
+    cases tokenAccountValid d <;> simp
+  | true =>
+    simp only [progOf, if_true, genericAccount, if_neg hne, accountValidOf, checkedGetter]
+    obtain ⟨v, hv⟩ := t22AccountValid_ok d
+    rw [hv]
+    cases v <;> simp
+
+theorem genericMint_of (t22 : Bool) (d : Bytes) :
+    genericMint d (progOf t22) = checkedGetter (mintValidOf t22 d) (unpackMintFields d) := by
+  have hne : TOKEN_2022_ID ≠ TOKEN_ID := by decide
+  cases t22 with
+  | false =>
+    simp only [progOf, Bool.false_eq_true, if_false, genericMint, if_true, mintValidOf, checkedGetter]
+    cases tokenMintValid d <;> simp
+  | true =>
+    simp only [progOf, if_true, genericMint, if_neg hne, mintValidOf, checkedGetter]
+    obtain ⟨v, hv⟩ := t22MintValid_ok d
+    rw [hv]
+    cases v <;> simp
+
+/-- The trait-level checked getters of all four implementors (`t22 = false`: `token::{Account,Mint}`,
+    `t22 = true`: `token_2022::{Account,Mint}`) are total and return exactly the field that the
+    program-id-dispatching parser returns under that implementor's program id. -/
+theorem C17_trait_getters (t22 : Bool) (d : Bytes) :
+    getAccountMint t22 d = (genericAccount d (progOf t22)).map (Option.map (·.mint)) ∧
+    getAccountOwner t22 d = (genericAccount d (progOf t22)).map (Option.map (·.owner)) ∧
+    getAccountAmount t22 d = (genericAccount d (progOf t22)).map (Option.map (·.amount)) ∧
+    getMintSupply t22 d = (genericMint d (progOf t22)).map (Option.map (·.supply)) ∧
+    getMintDecimals t22 d = (genericMint d (progOf t22)).map (Option.map (·.decimals)) ∧
+    getAccountMint t22 d ≠ .panic ∧ getAccountOwner t22 d ≠ .panic ∧ getAccountAmount t22 d ≠ .panic ∧
+    getMintSupply t22 d ≠ .panic ∧ getMintDecimals t22 d ≠ .panic := by
+  rw [genericAccount_of, genericMint_of]
+  have hav : ∃ v, accountValidOf t22 d = .ok v := by
+    cases t22 with
+    | false => exact ⟨_, rfl⟩
+    | true => exact t22AccountValid_ok d
+  have hmv : ∃ v, mintValidOf t22 d = .ok v := by
+    cases t22 with
+    | false => exact ⟨_, rfl⟩
+    | true => exact t22MintValid_ok d
+  obtain ⟨va, ha⟩ := hav
+  obtain ⟨vm, hm⟩ := hmv
+  have A : getAccountMint t22 d = (checkedGetter (accountValidOf t22 d) (unpackAccountFields d)).map (Option.map (·.mint)) ∧
+      getAccountOwner t22 d = (checkedGetter (accountValidOf t22 d) (unpackAccountFields d)).map (Option.map (·.owner)) ∧
+      getAccountAmount t22 d = (checkedGetter (accountValidOf t22 d) (unpackAccountFields d)).map (Option.map (·.amount)) ∧
+      getAccountMint t22 d ≠ .panic ∧ getAccountOwner t22 d ≠ .panic ∧ getAccountAmount t22 d ≠ .panic := by
+    unfold getAccountMint getAccountOwner getAccountAmount
+    cases va with
+    | false => rw [ha]; simp [checkedGetter, Res.map]
+    | true =>
+      have hl := accountValid_len t22 d ha
+      rw [ha, unpackAccountFields_ok (by omega), pubkey_ok _ (by simp [SPL_TOKEN_ACCOUNT_MINT_OFFSET]; omega),
+        pubkey_ok _ (by simp [SPL_TOKEN_ACCOUNT_OWNER_OFFSET]; omega), u64_ok _ (by simp [SPL_TOKEN_ACCOUNT_AMOUNT_OFFSET]; omega)]
+      simp [checkedGetter, Res.map, SPL_TOKEN_ACCOUNT_MINT_OFFSET, SPL_TOKEN_ACCOUNT_OWNER_OFFSET, SPL_TOKEN_ACCOUNT_AMOUNT_OFFSET]
+  have B : getMintSupply t22 d = (checkedGetter (mintValidOf t22 d) (unpackMintFields d)).map (Option.map (·.supply)) ∧
+      getMintDecimals t22 d = (checkedGetter (mintValidOf t22 d) (unpackMintFields d)).map (Option.map (·.decimals)) ∧
+      getMintSupply t22 d ≠ .panic ∧ getMintDecimals t22 d ≠ .panic := by
+    unfold getMintSupply getMintDecimals
+    cases vm with
+    | false => rw [hm]; simp [checkedGetter, Res.map]
+    | true =>
+      have hl := mintValid_len t22 d hm
+      have h44 : 44 < d.length := by omega
+      rw [hm, unpackMintFields_ok (by omega), u64_ok _ (by simp [SPL_TOKEN_MINT_SUPPLY_OFFSET]; omega),
+        index_ok (by simpa [SPL_TOKEN_MINT_DECIMALS_OFFSET] using h44)]
+      simp [checkedGetter, Res.map, SPL_TOKEN_MINT_SUPPLY_OFFSET, SPL_TOKEN_MINT_DECIMALS_OFFSET, byteAt,
+        List.getElem?_eq_getElem h44]
+  exact ⟨A.1, A.2.1, A.2.2.1, B.1, B.2.1, A.2.2.2.1, A.2.2.2.2.1, A.2.2.2.2.2, B.2.2.1, B.2.2.2⟩
+
 end C17
